@@ -171,6 +171,10 @@ func registerVF() {
 		fr.i.ctx.fixedSched = fr.condBool(args[0])
 		return nil
 	}
+	externals[vfPkg+".AdvanceClock"] = func(fr *frame, args []value) value {
+		fr.i.ctx.clock += fr.concInt(args[0])
+		return nil
+	}
 	// Watch/lockset support
 	externals[vfPkg+".LocksHeld"] = func(fr *frame, args []value) value {
 		return len(fr.i.ctx.held)
